@@ -402,4 +402,190 @@ theorem level_up (w : Wheel) (i t T : Nat) (htT : t ≤ T) (hT : T < two64) (hi 
         · exact hfut
     · rw [if_neg (by omega)]; exact h0
 
+/-- once a level's tick did not advance, neither did any coarser one: everything still placed for t is placed for T -/
+theorem settle (w : Wheel) (i t T : Nat) (heq : t >>> shift i = T >>> shift i) (hmono : ∀ l, i ≤ l → l < 5 → shift i ≤ shift l)
+    (h : AllAt (Lv i t T) w) : AllAt (Good T) w := by
+  intro l s x hx
+  have h0 := h l s x hx
+  unfold Lv at h0
+  split at h0
+  · exact h0
+  · rename_i hge
+    have hl5 := h0.lv
+    have hsh := hmono l (by omega) hl5
+    have heq' : t >>> shift l = T >>> shift l := by
+      have e : shift l = shift i + (shift l - shift i) := by omega
+      rw [e, Nat.shiftRight_add, Nat.shiftRight_add, heq]
+    refine ⟨h0.lv, h0.sl, ?_, h0.de, h0.bd⟩
+    have := h0.tk
+    by_cases e0 : l = 0
+    · rw [if_pos e0] at this ⊢
+      subst e0
+      rw [← heq']; exact this
+    · rw [if_neg e0] at this ⊢
+      rw [← heq']; exact this
+
+theorem shift_mono (i l : Nat) (h : i ≤ l) (hl : l < 5) : shift i ≤ shift l := by
+  unfold shift shifts
+  rcases i with _ | _ | _ | _ | _ | i <;> rcases l with _ | _ | _ | _ | _ | l <;> simp <;> omega
+
+theorem delta_eq (a b : Nat) (hba : b ≤ a) (ha : a < two64) : (a + two64 - b) % two64 = a - b := by
+  have e : a + two64 - b = two64 + (a - b) := by omega
+  rw [e, Nat.add_mod_left]
+  exact Nat.mod_eq_of_lt (by omega)
+
+theorem go_zero (T t : Nat) (w : Wheel) (ex : List Nat) (i : Nat) : deleteExpired.go T t w ex i 0 = (w, ex) := by
+  unfold deleteExpired.go; rfl
+
+theorem go_succ (T t : Nat) (w : Wheel) (ex : List Nat) (i fuel : Nat) :
+    deleteExpired.go T t w ex i (fuel + 1) =
+      if i ≥ 5 then (w, ex) else
+      if ((T >>> shift i + two64 - t >>> shift i) % two64 == 0) = true then (w, ex)
+      else deleteExpired.go T t (sweepLevel w i (t >>> shift i) ((T >>> shift i + two64 - t >>> shift i) % two64)).1
+        (ex ++ (sweepLevel w i (t >>> shift i) ((T >>> shift i + two64 - t >>> shift i) % two64)).2) (i + 1) fuel := by
+  rw [deleteExpired.go]
+
+
+theorem lv_done (w : Wheel) (i t T : Nat) (hi : 5 ≤ i) (h : AllAt (Lv i t T) w) : AllAt (Good T) w := by
+  intro l s x hx
+  have h0 := h l s x hx
+  unfold Lv at h0
+  split at h0
+  · exact h0
+  · exact absurd h0.lv (by omega)
+
+theorem go_allAt (fuel : Nat) : ∀ (w : Wheel) (ex : List Nat) (i t T : Nat), t ≤ T → T < two64 → w.time = T → Shape w →
+    AllAt (Lv i t T) w → 5 ≤ i + fuel →
+    (deleteExpired.go T t w ex i fuel).1.time = T ∧ Shape (deleteExpired.go T t w ex i fuel).1 ∧
+    AllAt (Good T) (deleteExpired.go T t w ex i fuel).1 := by
+  induction fuel with
+  | zero =>
+    intro w ex i t T htT hT hwt hsh h hf
+    rw [go_zero]
+    exact ⟨hwt, hsh, lv_done w i t T (by omega) h⟩
+  | succ fuel ih =>
+    intro w ex i t T htT hT hwt hsh h hf
+    rw [go_succ]
+    by_cases hge : i ≥ 5
+    · rw [if_pos hge]
+      exact ⟨hwt, hsh, lv_done w i t T hge h⟩
+    · rw [if_neg hge]
+      have hi : i < 5 := by omega
+      have hle : t >>> shift i ≤ T >>> shift i := by
+        rw [Nat.shiftRight_eq_div_pow, Nat.shiftRight_eq_div_pow]; exact Nat.div_le_div_right htT
+      have hct : T >>> shift i < two64 := Nat.lt_of_le_of_lt (Nat.shiftRight_le _ _) hT
+      rw [delta_eq _ _ hle hct]
+      by_cases hz : ((T >>> shift i - t >>> shift i) == 0) = true
+      · rw [if_pos hz]
+        have heq : t >>> shift i = T >>> shift i := by
+          have : T >>> shift i - t >>> shift i = 0 := by simpa using hz
+          omega
+        exact ⟨hwt, hsh, settle w i t T heq (fun l a b => shift_mono i l a b) h⟩
+      · rw [if_neg hz]
+        have hup := level_up w i t T htT hT hi hwt hsh h
+        exact ih _ _ (i + 1) t T htT hT hup.1 hup.2.1 hup.2.2 (by omega)
+
+theorem deleteExpired_eq (w : Wheel) (T : Nat) :
+    deleteExpired w T = deleteExpired.go T w.time { w with time := T } [] 0 5 := rfl
+
+/-- DeleteExpired(T) on a wheel whose entries are all correctly placed for its time t ≤ T leaves every remaining entry
+    correctly placed for T -/
+theorem deleteExpired_inv (w : Wheel) (T : Nat) (hT : T < two64) (htT : w.time ≤ T) (h : InvAt w.time w) :
+    (deleteExpired w T).1.time = T ∧ InvAt T (deleteExpired w T).1 := by
+  rw [deleteExpired_eq]
+  have hsh : Shape { w with time := T } := h.1
+  have hall : AllAt (Lv 0 w.time T) { w with time := T } := by
+    intro l s x hx
+    unfold Lv
+    rw [if_neg (Nat.not_lt_zero _)]
+    exact h.2 l s x hx
+  have := go_allAt 5 { w with time := T } [] 0 w.time T htT hT rfl hsh hall (by omega)
+  exact ⟨this.1, this.2.1, this.2.2⟩
+
+
+/-! ### every reachable wheel -/
+
+theorem shape_init : Shape ({} : Wheel) := by
+  refine ⟨rfl, fun i hi => ?_⟩
+  rcases i with _ | _ | _ | _ | _ | i
+  · rfl
+  · rfl
+  · rfl
+  · rfl
+  · rfl
+  · omega
+
+theorem getD_replicate_nil (b s : Nat) : (List.replicate b ([] : List Ent)).getD s [] = [] := by
+  simp only [List.getD_eq_getElem?_getD, List.getElem?_replicate]
+  split <;> rfl
+
+theorem bucket_init (l s : Nat) : ({} : Wheel).bucket l s = [] := by
+  unfold Wheel.bucket
+  show ((nBuckets.map (fun b => List.replicate b ([] : List Ent))).getD l []).getD s [] = []
+  have hl : (nBuckets.map (fun b => List.replicate b ([] : List Ent))).getD l [] =
+      ((nBuckets[l]?).map (fun b => List.replicate b ([] : List Ent))).getD [] := by
+    rw [List.getD_eq_getElem?_getD, List.getElem?_map]
+  rw [hl]
+  cases nBuckets[l]? with
+  | none => rfl
+  | some b => exact getD_replicate_nil b s
+
+theorem shape_delete (w : Wheel) (n : Nat) (h : Shape w) : Shape (delete w n) := by
+  unfold delete Shape at *
+  refine ⟨by simp only [List.length_map]; exact h.1, fun i hi => ?_⟩
+  simp only [List.getD_eq_getElem?_getD, List.getElem?_map]
+  have := h.2 i hi
+  simp only [List.getD_eq_getElem?_getD] at this
+  cases hh : w.wheel[i]? with
+  | none => rw [hh] at this; simpa using this
+  | some lv => rw [hh] at this; simpa using this
+
+theorem bucket_delete (w : Wheel) (n l s : Nat) : (delete w n).bucket l s = (w.bucket l s).filter (·.id != n) := by
+  unfold delete Wheel.bucket
+  simp only [List.getD_eq_getElem?_getD, List.getElem?_map]
+  cases w.wheel[l]? with
+  | none => rfl
+  | some lv =>
+    simp only [Option.map_some, Option.getD_some, List.getElem?_map]
+    cases lv[s]? with
+    | none => rfl
+    | some b => rfl
+
+/-- the wheels reachable by Add (of an unscheduled node), Delete and DeleteExpired with a monotone clock below 2^64 -/
+inductive WReach : Wheel → Prop
+  | init : WReach {}
+  | add {w : Wheel} (n d : Nat) : WReach w → d < two64 → WReach (add w n d)
+  | del {w : Wheel} (n : Nat) : WReach w → WReach (delete w n)
+  | sweep {w : Wheel} (T : Nat) : WReach w → w.time ≤ T → T < two64 → WReach (deleteExpired w T).1
+
+theorem wreach_inv {w : Wheel} (h : WReach w) : w.time < two64 ∧ InvAt w.time w := by
+  induction h with
+  | init =>
+    refine ⟨by decide, shape_init, fun l s x hx => ?_⟩
+    rw [bucket_init] at hx; cases hx
+  | add n d _ hd ih =>
+    refine ⟨ih.1, add_shape _ _ _ ih.2.1, ?_⟩
+    exact add_allAt (Good _) _ n d ih.2.1 ih.1 hd (fun _ _ _ hg => hg) ih.2.2
+  | del n _ ih =>
+    refine ⟨ih.1, shape_delete _ n ih.2.1, fun l s x hx => ?_⟩
+    rw [bucket_delete] at hx
+    exact ih.2.2 l s x (List.mem_filter.mp hx).1
+  | sweep T _ hle hT ih =>
+    have := deleteExpired_inv _ T hT hle ih.2
+    exact ⟨by rw [this.1]; exact hT, by rw [this.1]; exact this.2⟩
+
+/-- an entry correctly placed for time T does not lie in a tick before T's -/
+theorem good_not_overdue (T l s : Nat) (x : Ent) (h : Good T l s x) : T >>> shift 0 ≤ x.e >>> shift 0 := by
+  have := h.tk
+  split at this
+  · exact this
+  · have hlt : T < x.e := by
+      apply Nat.lt_of_not_le
+      intro hle
+      have : x.e >>> shift l ≤ T >>> shift l := by
+        rw [Nat.shiftRight_eq_div_pow, Nat.shiftRight_eq_div_pow]; exact Nat.div_le_div_right hle
+      omega
+    rw [Nat.shiftRight_eq_div_pow, Nat.shiftRight_eq_div_pow]
+    exact Nat.div_le_div_right (Nat.le_of_lt hlt)
+
 end OtterVerif.Impl.Wheel
